@@ -17,7 +17,7 @@ type GenOpts struct {
 	LongComments bool
 }
 
-var labelPool = []string{"l0", "loop", "done", "next", "L4", "skip_5", "a", "zz_end", ""} // the empty string is a label name like any other
+var labelPool = []string{"l0", "loop", "done", "next", "L4", "skip_5", "a", "zz_end", "", ".loc"} // the empty string is a label name like any other
 
 var dataLens = []int{0, 1, 2, 15, 16, 17, 31, 32, 33, 47, 48, 49, 64, 65, 80}
 
@@ -64,6 +64,9 @@ func GenHistory(t *rapid.T, o GenOpts) []Op {
 		add(Op{Kind: "assume_sep", V: uint32(rapid.SampledFrom([]byte{0x30, 0x20, 0x10}).Draw(t, "pre-mask"))})
 	}
 	if o.SetBase && rapid.IntRange(0, 2).Draw(t, "with-base") != 0 {
+		if o.Comments && rapid.IntRange(0, 3).Draw(t, "comment-before-base") == 0 {
+			add(Op{Kind: "comment", Text: "header"}) // a listing line that precedes the base directive
+		}
 		bank := rapid.SampledFrom([]uint32{0x00, 0x7e, 0x80, 0xff, 0x01, 0x3f}).Draw(t, "base-bank")
 		off := rapid.SampledFrom([]uint32{0x0000, 0x8000, 0x1000, 0xc000, 0x7ff0, 0x00f0}).Draw(t, "base-off")
 		if rapid.Bool().Draw(t, "base-rand") {
